@@ -13,6 +13,7 @@ import (
 	"io"
 	"testing"
 
+	bls12 "github.com/kilic/bls12-381"
 	"github.com/relab/hotstuff"
 	"github.com/relab/hotstuff/core"
 	"github.com/relab/hotstuff/core/eventloop"
@@ -200,6 +201,7 @@ func TestVerifC20(t *testing.T) {
 	}
 	c20AnyQC(t, v)
 	c20JunkPositions(t, v)
+	c20AggReporters(t, v)
 	v.Close("QC and TC signed by exactly k distinct members verified by a real Authority, n = 1..13, k = 1..n; non-trivial = k at or just below the quorum")
 }
 
@@ -606,6 +608,312 @@ func c20JunkPositions(t *testing.T, v *verifOut) {
 							}
 							v.Case(s, fmt.Sprintf("(%s,%s,%s)", gZ(int64(n)), gZ(int64(valid)), gBool(accepted)), meta)
 						}
+					}
+				}
+			}
+		}
+	}
+}
+
+// c20AggReporters (stream "agg_reporters"): the quorum of an AggregateQC is a quorum of REPORTS each covered
+// by its reporter's own valid signature — not merely q signature entries.  For all three schemes:
+//   - r genuine (report, signature) pairs, r in {1, q/2, q-1}, with the SIGNATURE side padded to q and to n
+//     entries under ids that have no report: junk bytes under unused member ids, a valid signature of another
+//     view's message under unused member ids, entries under non-member ids (BLS12: the bitfield is padded,
+//     the point is the sum of the genuine signatures, plus the other-view signatures / a random point);
+//   - the mirror: q reports but only r signature entries;
+//   - the legitimate aggregate: q pairs.
+//
+// VerifyAggregateQC directly and VerifyAnyQC on a proposal carrying the aggregate (aggregate QCs enabled),
+// Authority without cache and with a cache of 100.  Oracle, computed here: the number of members whose own
+// report is covered by their own valid signature (list schemes: checked per entry with crypto/ecdsa /
+// crypto/ed25519; BLS12: by construction, the pairing equation needs exactly the reporters' signatures).
+func c20AggReporters(t *testing.T, v *verifOut) {
+	s := v.Stream("agg_reporters", "thr_mismatches", 2000)
+	sizes := []int{4, 5, 7, 10, 13}
+	if v.Thorough() {
+		sizes = []int{2, 3, 4, 5, 6, 7, 8, 9, 10, 11, 12, 13, 16, 22}
+	}
+	g2 := bls12.NewG2()
+	for _, scheme := range []string{crypto.NameECDSA, crypto.NameEDDSA, crypto.NameBLS12} {
+		for _, n := range sizes {
+			q := hotstuff.QuorumSize(n)
+			total := n + 3 // members 1..n plus three non-members that own keys but are not configured
+			keys := make([]hotstuff.PrivateKey, total+1)
+			cfgs := make([]*core.RuntimeConfig, total+1)
+			bases := make([]crypto.Base, total+1)
+			for i := 1; i <= total; i++ {
+				var err error
+				switch scheme {
+				case crypto.NameECDSA:
+					keys[i], err = keygen.GenerateECDSAPrivateKey()
+				case crypto.NameEDDSA:
+					_, keys[i], err = keygen.GenerateED25519Key()
+				default:
+					keys[i], err = crypto.GenerateBLS12PrivateKey()
+				}
+				if err != nil {
+					t.Fatal(err)
+				}
+				cfgs[i] = core.NewRuntimeConfig(hotstuff.ID(i), keys[i])
+				if bases[i], err = crypto.New(cfgs[i], scheme); err != nil {
+					t.Fatal(err)
+				}
+			}
+			gen := hotstuff.GetGenesis()
+			genQC := hotstuff.NewQuorumCert(nil, 0, gen.Hash())
+			const aggView = 5
+			var verifiers []*Authority
+			for _, cacheSize := range []uint{0, 100} {
+				opts := []core.RuntimeOption{core.WithAggregateQC()}
+				if cacheSize > 0 {
+					opts = append(opts, core.WithCache(cacheSize))
+				}
+				cfg := core.NewRuntimeConfig(hotstuff.ID(n), keys[n], opts...)
+				base, err := crypto.New(cfg, scheme)
+				if err != nil {
+					t.Fatal(err)
+				}
+				for j := 1; j <= n; j++ {
+					cfg.AddReplica(&hotstuff.ReplicaInfo{ID: hotstuff.ID(j), PubKey: keys[j].Public(), Metadata: cfgs[j].ConnectionMetadata()})
+				}
+				logger := logging.NewWithDest(io.Discard, "c20")
+				verifiers = append(verifiers, NewAuthority(cfg, blockchain.New(eventloop.New(logger, 10), logger, c20NullSender{}), base))
+			}
+			report := func(id int, view hotstuff.View) []byte {
+				return hotstuff.TimeoutMsg{ID: hotstuff.ID(id), View: view, SyncInfo: hotstuff.NewSyncInfoWith(genQC)}.ToBytes()
+			}
+			memo := map[string][]byte{}
+			raw := func(i int, msg []byte) []byte { // single signature bytes (BLS: compressed point)
+				key := fmt.Sprintf("%d|%x", i, msg)
+				if b, ok := memo[key]; ok {
+					return b
+				}
+				sg, err := bases[i].Sign(msg)
+				if err != nil {
+					t.Fatal(err)
+				}
+				var b []byte
+				switch m := sg.(type) {
+				case crypto.Multi[*crypto.ECDSASignature]:
+					b = m[0].ToBytes()
+				case crypto.Multi[*crypto.EDDSASignature]:
+					b = m[0].ToBytes()
+				default:
+					b = sg.ToBytes()
+				}
+				memo[key] = b
+				return b
+			}
+			verifies := func(label int, msg, sig []byte) bool {
+				if label < 1 || label > n {
+					return false
+				}
+				switch pk := keys[label].Public().(type) {
+				case *ecdsa.PublicKey:
+					h := sha256.Sum256(msg)
+					return ecdsa.VerifyASN1(pk, h[:], sig)
+				case ed25519.PublicKey:
+					return ed25519.Verify(pk, msg, sig)
+				}
+				return false
+			}
+			junk := func(l int) []byte {
+				b := make([]byte, l)
+				for x := range b {
+					b[x] = byte(v.rng.Intn(256))
+				}
+				return b
+			}
+			type entry struct {
+				id   int
+				kind string // "genuine", "junk", "other-view"
+			}
+			// build the signature object; covered = members with a report and an own valid signature over it
+			build := func(reporters map[int]bool, entries []entry) (hotstuff.QuorumSignature, int) {
+				covered := 0
+				switch scheme {
+				case crypto.NameBLS12:
+					var bf crypto.Bitfield
+					acc := g2.Zero()
+					clean, genuine := true, map[int]bool{}
+					for _, e := range entries {
+						bf.Add(hotstuff.ID(e.id))
+						var pt *bls12.PointG2
+						var err error
+						switch e.kind {
+						case "genuine":
+							pt, err = g2.FromCompressed(raw(e.id, report(e.id, aggView)))
+							genuine[e.id] = true
+						case "other-view":
+							pt, err = g2.FromCompressed(raw(e.id, report(e.id, aggView+1)))
+							clean = false
+						case "junk":
+							pt, err = g2.HashToCurve(junk(32), []byte("C20-JUNK"))
+							clean = false
+						default: // "bit-only": the id is named in the bitfield, nothing is added to the point
+							continue
+						}
+						if err != nil {
+							t.Fatal(err)
+						}
+						g2.Add(acc, acc, pt)
+					}
+					sig, err := crypto.RestoreBLS12AggregateSignature(g2.ToCompressed(acc), bf)
+					if err != nil {
+						t.Fatal(err)
+					}
+					// the pairing equation holds iff the point is exactly the sum of the reporters' own signatures
+					exact := clean && len(genuine) == len(reporters)
+					for id := range reporters {
+						exact = exact && genuine[id]
+					}
+					if exact {
+						covered = len(reporters)
+					} else {
+						for id := range reporters {
+							if genuine[id] && id <= n {
+								covered++ // what a per-signer check could at most credit; < q in every padded shape
+							}
+						}
+					}
+					return sig, covered
+				default:
+					var bytes [][]byte
+					for _, e := range entries {
+						var b []byte
+						switch e.kind {
+						case "genuine":
+							b = raw(e.id, report(e.id, aggView))
+						case "other-view":
+							b = raw(e.id, report(e.id, aggView+1))
+						default:
+							b = junk(64)
+						}
+						bytes = append(bytes, b)
+						if reporters[e.id] && verifies(e.id, report(e.id, aggView), b) {
+							covered++
+						}
+					}
+					if scheme == crypto.NameECDSA {
+						m := make([]*crypto.ECDSASignature, len(entries))
+						for j, e := range entries {
+							m[j] = crypto.RestoreECDSASignature(bytes[j], hotstuff.ID(e.id))
+						}
+						return crypto.NewMulti(m...), covered
+					}
+					m := make([]*crypto.EDDSASignature, len(entries))
+					for j, e := range entries {
+						m[j] = crypto.RestoreEDDSASignature(bytes[j], hotstuff.ID(e.id))
+					}
+					return crypto.NewMulti(m...), covered
+				}
+			}
+			type shape struct {
+				name      string
+				reporters []int
+				entries   []entry
+			}
+			ids := func(a, b int) []int {
+				var r []int
+				for i := a; i <= b; i++ {
+					r = append(r, i)
+				}
+				return r
+			}
+			genuineEntries := func(l []int) []entry {
+				var es []entry
+				for _, i := range l {
+					es = append(es, entry{i, "genuine"})
+				}
+				return es
+			}
+			var shapes []shape
+			shapes = append(shapes, shape{"q-genuine-pairs", ids(1, q), genuineEntries(ids(1, q))})
+			shapes = append(shapes, shape{"n-genuine-pairs", ids(1, n), genuineEntries(ids(1, n))})
+			rs := map[int]bool{}
+			for _, r := range []int{1, q / 2, q - 1} {
+				if r < 1 || r >= q || rs[r] {
+					continue
+				}
+				rs[r] = true
+				for _, totalEntries := range []int{q, n} {
+					if totalEntries <= r {
+						continue
+					}
+					pad := totalEntries - r
+					for _, kind := range []string{"junk", "other-view", "non-member", "bit-only"} {
+						if kind == "bit-only" && scheme != crypto.NameBLS12 {
+							continue
+						}
+						es := genuineEntries(ids(1, r))
+						for x := 0; x < pad; x++ {
+							switch kind {
+							case "non-member":
+								// non-member ids n+1..n+3 (cycled with unused member ids when more pads are needed)
+								if x < 3 {
+									es = append(es, entry{n + 1 + x, "junk"})
+								} else if r+x-2 <= n {
+									es = append(es, entry{r + x - 2, "junk"})
+								}
+							default:
+								es = append(es, entry{r + 1 + x, kind})
+							}
+						}
+						if len(es) != totalEntries {
+							continue
+						}
+						// pads first as well as last (the genuine pairs then sit at the end of the entry list)
+						shapes = append(shapes, shape{fmt.Sprintf("%d-pairs-padded-to-%d-with-%s-last", r, totalEntries, kind), ids(1, r), es})
+						rev := append(append([]entry(nil), es[r:]...), es[:r]...)
+						shapes = append(shapes, shape{fmt.Sprintf("%d-pairs-padded-to-%d-with-%s-first", r, totalEntries, kind), ids(1, r), rev})
+					}
+				}
+				shapes = append(shapes, shape{fmt.Sprintf("mirror-q-reports-%d-signatures", r), ids(1, q), genuineEntries(ids(1, r))})
+			}
+			for _, sh := range shapes {
+				reporters := map[int]bool{}
+				qcs := make(map[hotstuff.ID]hotstuff.QuorumCert, len(sh.reporters))
+				for _, id := range sh.reporters {
+					reporters[id] = true
+					qcs[hotstuff.ID(id)] = genQC
+				}
+				sig, covered := build(reporters, sh.entries)
+				agg := hotstuff.NewAggregateQC(qcs, sig, aggView)
+				for vi, a := range verifiers {
+					for _, call := range []string{"VerifyAggregateQC", "VerifyAnyQC"} {
+						accepted := false
+						meta := map[string]any{"scheme": scheme, "n": n, "quorum": q, "shape": sh.name, "reports": len(sh.reporters),
+							"signature_entries": len(sh.entries), "reports_covered_by_own_valid_signature": covered, "call": call, "cache_size": []int{0, 100}[vi]}
+						func() {
+							defer func() {
+								if r := recover(); r != nil {
+									meta["panic"] = fmt.Sprint(r)
+								}
+							}()
+							if call == "VerifyAggregateQC" {
+								_, err := a.VerifyAggregateQC(agg)
+								accepted = err == nil
+							} else {
+								ag := agg
+								blk := hotstuff.NewBlock(gen.Hash(), genQC, &clientpb.Batch{}, aggView+1, 1)
+								accepted = a.VerifyAnyQC(&hotstuff.ProposeMsg{ID: 1, Block: blk, AggregateQC: &ag}) == nil
+							}
+						}()
+						meta["accepted"] = accepted
+						v.Seen(fmt.Sprintf("aggrep/%s/%d/%s/%s/%d", scheme, n, sh.name, call, vi), len(sh.entries) >= q, meta)
+						v.Count("agg_reporters:" + call)
+						switch {
+						case accepted && covered < q:
+							v.Oracle(false, "threshold:aggqc:signature-entries-counted-instead-of-covered-reports",
+								fmt.Sprintf("%s n=%d: %s accepted an AggregateQC with %d reports and %d signature entries of which only %d reports are covered by their reporter's own valid signature (%s), quorum is %d",
+									scheme, n, call, len(sh.reporters), len(sh.entries), covered, sh.name, q), meta)
+						case !accepted && covered >= q:
+							v.Oracle(false, "threshold:aggqc:rejected-at-quorum", fmt.Sprintf("%s n=%d: %s rejected an AggregateQC with %d covered reports (%s), quorum is %d", scheme, n, call, covered, sh.name, q), meta)
+						default:
+							v.Oracle(true, "", "", nil)
+						}
+						v.Case(s, fmt.Sprintf("(%s,%s,%s)", gZ(int64(n)), gZ(int64(covered)), gBool(accepted)), meta)
 					}
 				}
 			}
